@@ -28,6 +28,102 @@ fn payload_ty(fs: &[Ty]) -> Ty {
 
 const WORDS: &[&str] = &["", "a", "b", "ab", "hello world", "x y z", "Zed", "0", "été", "日本", "naïve café", "tab_less", "UPPER lower"];
 
+thread_local! {
+    /// rich mode: every array has at least two elements and is not a palindrome (a reversal is visible)
+    static RICH: std::cell::Cell<bool> = const { std::cell::Cell::new(false) };
+    /// an array value that the program binds to a variable once and uses in several places: (type, canonical value, name)
+    static HOIST: std::cell::RefCell<Option<(Ty, String, String)>> = const { std::cell::RefCell::new(None) };
+}
+
+/// can the prelude print a value of this type (tuples wider than 4 have no ToString)
+fn printable(t: &Ty) -> bool {
+    match t {
+        Ty::Opt(x) | Ty::Arr(x) => printable(x),
+        Ty::Res(x, e) => printable(x) && printable(e),
+        Ty::Tup(xs) => xs.len() <= 4 && xs.iter().all(printable),
+        _ => true,
+    }
+}
+
+fn child_types(t: &Ty, v: &V) -> Vec<Ty> {
+    match (t, v) {
+        (Ty::Opt(x), V::Some(_)) => vec![(**x).clone()],
+        (Ty::Res(x, _), V::Ok(_)) => vec![(**x).clone()],
+        (Ty::Res(_, e), V::Err(_)) => vec![(**e).clone()],
+        (Ty::Arr(x), V::Arr(ys)) => vec![(**x).clone(); ys.len()],
+        (Ty::Tup(xs), V::Tup(_)) => xs.clone(),
+        (Ty::Named(name), V::Tup(_)) => struct_def(name).unwrap().fields.iter().map(|(_, t)| t.clone()).collect(),
+        (Ty::Named(name), V::Variant(tag, Some(_))) => vec![payload_ty(&enum_def(name).unwrap().variants[*tag].1)],
+        _ => vec![],
+    }
+}
+fn children(v: &V) -> Vec<&V> {
+    match v {
+        V::Some(x) | V::Ok(x) | V::Err(x) => vec![x],
+        V::Arr(xs) | V::Tup(xs) => xs.iter().collect(),
+        V::Variant(_, Some(x)) => vec![x],
+        _ => vec![],
+    }
+}
+fn child_mut(v: &mut V, i: usize) -> &mut V {
+    match v {
+        V::Some(x) | V::Ok(x) | V::Err(x) => x,
+        V::Arr(xs) | V::Tup(xs) => &mut xs[i],
+        V::Variant(_, Some(x)) => x,
+        _ => panic!("no child"),
+    }
+}
+/// every array-typed node below (t, v): (type, path)
+fn collect_arrays(t: &Ty, v: &V, path: &mut Vec<usize>, out: &mut Vec<(Ty, Vec<usize>)>) {
+    if matches!(t, Ty::Arr(_)) {
+        out.push((t.clone(), path.clone()));
+    }
+    let ts = child_types(t, v);
+    for (i, (ct, cv)) in ts.iter().zip(children(v)).enumerate() {
+        path.push(i);
+        collect_arrays(ct, cv, path, out);
+        path.pop();
+    }
+}
+fn node_mut<'a>(args: &'a mut [V], path: &[usize]) -> &'a mut V {
+    let mut cur = &mut args[path[0]];
+    for &i in &path[1..] {
+        cur = child_mut(cur, i);
+    }
+    cur
+}
+
+/// Make two array-typed places of the arguments hold ONE array (bound once in the program, used twice) with at
+/// least two elements that is not a palindrome.  Returns the hoisted (type, value) when there are two such places.
+fn share_an_array(params: &[Ty], args: &mut [V], rng: &mut Rng) -> Option<(Ty, V)> {
+    let mut nodes: Vec<(Ty, Vec<usize>)> = vec![];
+    for (j, (t, v)) in params.iter().zip(args.iter()).enumerate() {
+        let mut path = vec![j];
+        collect_arrays(t, v, &mut path, &mut nodes);
+    }
+    let mut pairs: Vec<(usize, usize)> = vec![];
+    for a in 0..nodes.len() {
+        for b in a + 1..nodes.len() {
+            let (pa, pb) = (&nodes[a].1, &nodes[b].1);
+            let prefix = pa.len() <= pb.len() && pb[..pa.len()] == pa[..] || pb.len() <= pa.len() && pa[..pb.len()] == pb[..];
+            if nodes[a].0 == nodes[b].0 && !prefix {
+                pairs.push((a, b));
+            }
+        }
+    }
+    if pairs.is_empty() {
+        return None;
+    }
+    let (a, b) = *rng.pick(&pairs);
+    let ty = nodes[a].0.clone();
+    RICH.with(|r| r.set(true));
+    let val = gen_v(&ty, rng, 1, true, false);
+    RICH.with(|r| r.set(false));
+    *node_mut(args, &nodes[a].1) = val.clone();
+    *node_mut(args, &nodes[b].1) = val.clone();
+    Some((ty, val))
+}
+
 /// `lit`: the value must be writable as an Abra literal (finite floats with a short decimal form)
 fn gen_v(t: &Ty, rng: &mut Rng, depth: u32, lit: bool, edge: bool) -> V {
     match t {
@@ -75,6 +171,18 @@ fn gen_v(t: &Ty, rng: &mut Rng, depth: u32, lit: bool, edge: bool) -> V {
                     _ => 1 + rng.below(if depth == 0 { 6 } else { 3 }) as usize,
                 }
             };
+            if RICH.with(|r| r.get()) {
+                // at least two elements, first and last different (as far as the element type allows)
+                let n = 2 + rng.below(3) as usize;
+                let mut xs: Vec<V> = (0..n).map(|_| gen_v(x, rng, depth + 1, lit, false)).collect();
+                for _ in 0..12 {
+                    if canon(&xs[0]) != canon(&xs[n - 1]) {
+                        break;
+                    }
+                    xs[n - 1] = gen_v(x, rng, depth + 1, lit, false);
+                }
+                return V::Arr(xs);
+            }
             V::Arr((0..n).map(|_| gen_v(x, rng, depth + 1, lit, edge)).collect())
         }
         Ty::Tup(xs) => V::Tup(xs.iter().map(|x| gen_v(x, rng, depth + 1, lit, edge)).collect()),
@@ -108,7 +216,13 @@ fn lit(t: &Ty, v: &V) -> String {
         (Ty::Opt(_), V::None) => "option.none".into(),
         (Ty::Res(x, _), V::Ok(y)) => format!("result.ok({})", lit(x, y)),
         (Ty::Res(_, e), V::Err(y)) => format!("result.err({})", lit(e, y)),
-        (Ty::Arr(x), V::Arr(ys)) => format!("[{}]", ys.iter().map(|y| lit(x, y)).collect::<Vec<_>>().join(", ")),
+        (Ty::Arr(x), V::Arr(ys)) => {
+            let shared = HOIST.with(|h| h.borrow().as_ref().filter(|(ht, hc, _)| ht == t && *hc == canon(v)).map(|(_, _, n)| n.clone()));
+            match shared {
+                Some(name) => name,
+                None => format!("[{}]", ys.iter().map(|y| lit(x, y)).collect::<Vec<_>>().join(", ")),
+            }
+        }
         (Ty::Tup(xs), V::Tup(ys)) => format!("({})", xs.iter().zip(ys).map(|(x, y)| lit(x, y)).collect::<Vec<_>>().join(", ")),
         (Ty::Named(name), V::Tup(ys)) => {
             let d = struct_def(name).unwrap();
@@ -387,9 +501,17 @@ fn probe_stage(ctx: &mut Ctx, gen_dir: &std::path::Path) {
 
 struct Case {
     k: usize,
+    /// the arguments of the first call
     args: Vec<V>,
+    /// the arguments every call of the program must hand to the host, in call order
+    calls: Vec<Vec<V>>,
     ret: V,
     program: String,
+    /// lines the result takes in the output
+    result_lines: usize,
+    /// what the program prints after the call(s): every argument re-read on the Abra side (marshalling an
+    /// argument must not change the caller's copy), and the value the host returned when it was passed back
+    after: Vec<(String, String)>,
 }
 
 fn main() {
@@ -400,17 +522,84 @@ fn main() {
     for (k, sig) in table.iter().enumerate() {
         for _ in 0..per_sig {
             let edge = ctx.rng.chance(2, 5);
-            let args: Vec<V> = sig.params.iter().map(|t| gen_v(t, &mut ctx.rng, 0, true, edge)).collect();
+            // shapes: 0 plain; 1 the same variable in two argument positions; 2 the same variables passed to two
+            // successive calls; 3 the value the host returned is passed back to it.  In 1-3 arrays are "rich".
+            let same_ty_pair: Option<(usize, usize)> = {
+                let mut v = vec![];
+                for i in 0..sig.params.len() {
+                    for j in i + 1..sig.params.len() {
+                        if sig.params[i] == sig.params[j] && sig.params[i] != Ty::Unit {
+                            v.push((i, j));
+                        }
+                    }
+                }
+                if v.is_empty() { None } else { Some(*ctx.rng.pick(&v)) }
+            };
+            let echo1 = sig.params.len() == 1 && sig.params[0] == sig.ret && printable(&sig.ret) && sig.ret != Ty::Unit;
+            let mut shape_kind = match ctx.rng.below(8) {
+                0 | 1 => 1,
+                2 | 3 => 2,
+                4 => 3,
+                _ => 0,
+            };
+            if same_ty_pair.is_some() && ctx.rng.chance(1, 2) {
+                shape_kind = 1;
+            }
+            if shape_kind == 1 && same_ty_pair.is_none() {
+                shape_kind = 2;
+            }
+            if shape_kind == 3 && !echo1 {
+                shape_kind = 2;
+            }
+            if sig.params.iter().all(|t| *t == Ty::Unit) {
+                shape_kind = 0;
+            }
+            let rich = shape_kind != 0 || ctx.rng.chance(1, 3);
+            let edge = edge && !rich;
+            RICH.with(|r| r.set(rich));
+            let mut args: Vec<V> = sig.params.iter().map(|t| gen_v(t, &mut ctx.rng, 0, true, edge)).collect();
+            RICH.with(|r| r.set(false));
+            if shape_kind == 1 {
+                let (i, j) = same_ty_pair.unwrap();
+                args[j] = args[i].clone();
+            }
+            // one array bound once and used in two places of the arguments (inside an outer array, tuple, struct,
+            // option, or as two arguments)
+            let hoisted = if ctx.rng.chance(3, 4) { share_an_array(&sig.params, &mut args, &mut ctx.rng) } else { None };
+            if shape_kind == 1 {
+                // keep the two positions identical after sharing
+                let (i, j) = same_ty_pair.unwrap();
+                args[j] = args[i].clone();
+            }
             let edge_ret = ctx.rng.chance(2, 5);
-            let ret = gen_v(&sig.ret, &mut ctx.rng, 0, false, edge_ret);
+            RICH.with(|r| r.set(shape_kind == 3));
+            let ret = gen_v(&sig.ret, &mut ctx.rng, 0, shape_kind == 3, edge_ret && shape_kind != 3);
+            RICH.with(|r| r.set(false));
             let mut p = program_header();
+            if let Some((ht, hv)) = &hoisted {
+                p.push_str(&format!("let s0: {} = {}\n", abra_ty(ht), lit(ht, hv)));
+                HOIST.with(|h| *h.borrow_mut() = Some((ht.clone(), canon(hv), "s0".to_string())));
+                ctx.count("shared-array:one-object-in-two-places");
+            }
             let mut names = vec![];
+            let mut after: Vec<(String, String)> = vec![];
             for (j, (t, v)) in sig.params.iter().zip(&args).enumerate() {
                 if *t == Ty::Unit {
                     names.push("nil".to_string());
+                } else if shape_kind == 1 && same_ty_pair.unwrap().1 == j {
+                    names.push(format!("a{}", same_ty_pair.unwrap().0));
                 } else {
                     p.push_str(&format!("let a{j}: {} = {}\n", abra_ty(t), lit(t, v)));
                     names.push(format!("a{j}"));
+                    if printable(t) {
+                        after.push((format!("a{j}"), show(t, v)));
+                    }
+                }
+            }
+            HOIST.with(|h| *h.borrow_mut() = None);
+            if let Some((ht, hv)) = &hoisted {
+                if printable(ht) {
+                    after.push(("s0".to_string(), show(ht, hv)));
                 }
             }
             // three call forms: direct call, the host function stored in a variable (the compiler emits a
@@ -435,20 +624,54 @@ fn main() {
                 (2, "via") => "call-form:inside-function",
                 _ => "call-form:direct",
             });
+            ctx.count(match shape_kind {
+                1 => "call-shape:same-variable-in-two-positions",
+                2 => "call-shape:same-variables-in-two-successive-calls",
+                3 => "call-shape:returned-value-passed-back",
+                _ => "call-shape:single-call",
+            });
+            let mut calls = vec![args.clone()];
+            let mut result_lines = 1;
+            // an earlier call whose result is not the one printed
+            if shape_kind == 2 {
+                if sig.ret == Ty::Unit {
+                    p.push_str(&format!("{callee}({})\n", names.join(", ")));
+                } else {
+                    p.push_str(&format!("let first = {callee}({})\n", names.join(", ")));
+                }
+                calls.push(args.clone());
+            }
+            let mut last_names = names.clone();
+            if shape_kind == 3 {
+                p.push_str(&format!("let back = {callee}({})\n", names.join(", ")));
+                last_names = vec!["back".to_string()];
+                calls.push(vec![ret.clone()]);
+            }
             if sig.ret == Ty::Unit {
-                p.push_str(&format!("{callee}({})\nprintln(nil)\n", names.join(", ")));
+                p.push_str(&format!("{callee}({})\nprintln(nil)\n", last_names.join(", ")));
             } else if matches!(&sig.ret, Ty::Tup(xs) if xs.len() > 4) {
                 let Ty::Tup(xs) = &sig.ret else { unreachable!() };
                 let rs: Vec<String> = (0..xs.len()).map(|j| format!("r{j}")).collect();
-                p.push_str(&format!("let ({}) = {callee}({})\n", rs.join(", "), names.join(", ")));
+                p.push_str(&format!("let ({}) = {callee}({})\n", rs.join(", "), last_names.join(", ")));
                 for r in &rs {
                     p.push_str(&format!("println({r})\n"));
                 }
+                result_lines = xs.len();
                 ctx.count("wide-tuple-result");
             } else {
-                p.push_str(&format!("let r = {callee}({})\nprintln(r)\n", names.join(", ")));
+                p.push_str(&format!("let r = {callee}({})\nprintln(r)\n", last_names.join(", ")));
             }
-            cases.push(Case { k, args, ret, program: p });
+            if shape_kind == 3 {
+                after.push(("back".to_string(), show(&sig.ret, &ret)));
+            }
+            if shape_kind == 2 && sig.ret != Ty::Unit && printable(&sig.ret) {
+                after.push(("first".to_string(), show(&sig.ret, &ret)));
+            }
+            // re-read on the Abra side after the call(s)
+            for (name, _) in &after {
+                p.push_str(&format!("println({name})\n"));
+            }
+            cases.push(Case { k, args, calls, ret, program: p, result_lines, after });
         }
     }
 
@@ -548,7 +771,13 @@ fn main() {
         let f: Vec<&str> = l.split('\t').collect();
         let (seen_k, seen_args, printed_hex, status) = (f[0], f[1], f[2], f[3]);
         let printed = String::from_utf8_lossy(&unhex(printed_hex)).to_string();
-        // request for the model
+        // the output: the result first, then the re-read arguments
+        let plines: Vec<&str> = printed.split_inclusive('\n').collect();
+        let cut = c.result_lines.min(plines.len());
+        let printed_result: String = plines[..cut].concat();
+        let printed_after: Vec<String> = plines[cut..].iter().map(|l| l.trim_end_matches('\n').to_string()).collect();
+        let seen_calls: Vec<&str> = seen_args.split(" ;; ").collect();
+        // requests for the model: one per host call of the program
         let mut fl = vec![];
         floats_of(&c.ret, &mut fl);
         let mut tbl: Vec<(u64, String)> = vec![];
@@ -557,26 +786,32 @@ fn main() {
                 tbl.push((x.to_bits(), x.to_string()));
             }
         }
-        let req = format!(
-            "marshal P {} {} R {} A {} V {} T {} {} #f{:02}",
-            sig.params.len(),
-            sig.params.iter().map(ty_tokens).collect::<Vec<_>>().join(" "),
-            ty_tokens(&sig.ret),
-            c.args.iter().map(v_text).collect::<Vec<_>>().join(" "),
-            v_text(&c.ret),
-            tbl.len(),
-            tbl.iter().map(|(b, t)| format!("{b} {}", hex(t.as_bytes()))).collect::<Vec<_>>().join(" "),
-            c.k
-        );
-        let req = req.split_whitespace().collect::<Vec<_>>().join(" ");
-        let imp = if status == "done" {
-            format!("args={} | out={} | pending=cleared", seen_args, printed.trim_end_matches('\n'))
-        } else {
-            format!("status={status} args={seen_args} out={}", printed.trim_end_matches('\n'))
-        };
-        ctx.case(req, imp.replace('\n', "\\n"));
+        for (ci, call_args) in c.calls.iter().enumerate() {
+            let req = format!(
+                "marshal P {} {} R {} A {} V {} T {} {} #f{:02}-call{}of{}",
+                sig.params.len(),
+                sig.params.iter().map(ty_tokens).collect::<Vec<_>>().join(" "),
+                ty_tokens(&sig.ret),
+                call_args.iter().map(v_text).collect::<Vec<_>>().join(" "),
+                v_text(&c.ret),
+                tbl.len(),
+                tbl.iter().map(|(b, t)| format!("{b} {}", hex(t.as_bytes()))).collect::<Vec<_>>().join(" "),
+                c.k,
+                ci + 1,
+                c.calls.len()
+            );
+            let req = req.split_whitespace().collect::<Vec<_>>().join(" ");
+            let seen = seen_calls.get(ci).copied().unwrap_or("-");
+            let imp = if status == "done" && seen_calls.len() == c.calls.len() {
+                format!("args={} | out={} | pending=cleared", seen, printed_result.trim_end_matches('\n'))
+            } else {
+                format!("status={status} calls={} args={seen} out={}", seen_calls.len(), printed_result.trim_end_matches('\n'))
+            };
+            ctx.case(req, imp.replace('\n', "\\n"));
+        }
         // the property's own statement
-        let want_args = if c.args.is_empty() { "()".to_string() } else { c.args.iter().map(canon).collect::<Vec<_>>().join(" ") };
+        let canon_args = |vs: &Vec<V>| if vs.is_empty() { "()".to_string() } else { vs.iter().map(canon).collect::<Vec<_>>().join(" ") };
+        let want_args = c.calls.iter().map(canon_args).collect::<Vec<_>>().join(" ;; ");
         let call = format!("f{:02}({}) -> {}", c.k, sig.params.iter().map(abra_ty).collect::<Vec<_>>().join(", "), abra_ty(&sig.ret));
         if status != "done" {
             let detail = status.split_once(':').map(|(a, b)| format!("{a}: {}", String::from_utf8_lossy(&unhex(b)))).unwrap_or(status.to_string());
@@ -590,19 +825,39 @@ fn main() {
         }
         if seen_k != c.k.to_string() || seen_args != want_args {
             ctx.spec_fail(format!(
-                "{call}: Abra passed [{want_args}] but the generated HostFunctionArgs::from_vm gave the host [{seen_args}] (function index {seen_k}); program: {}",
+                "{call}: Abra passed [{want_args}] but the generated HostFunctionArgs::from_vm gave the host [{seen_args}] (function index {seen_k}; calls separated by ;;); program: {}",
                 c.program.replace('\n', " ; ")
             ));
         }
         let want_out = if sig.ret == Ty::Unit { "nil\n".to_string() } else { format!("{}\n", show(&sig.ret, &c.ret)) };
-        if printed != want_out {
+        if printed_result != want_out {
             ctx.spec_fail(format!(
                 "{call}: the host returned {} which prints as {:?}, but the Abra program printed {:?}",
                 canon(&c.ret),
                 want_out,
-                printed
+                printed_result
             ));
         }
+        // marshalling must not change the caller's copy of an argument (nor the returned value when it is passed back)
+        let want_after: Vec<String> = c.after.iter().flat_map(|(_, t)| t.split('\n').map(|x| x.to_string()).collect::<Vec<_>>()).collect();
+        if printed_after != want_after {
+            let mut which = String::new();
+            let mut pos = 0;
+            for (name, t) in &c.after {
+                let n = t.split('\n').count();
+                let got = printed_after.get(pos..pos + n).map(|x| x.join("\n"));
+                if got.as_deref() != Some(t.as_str()) {
+                    which = format!("`{name}` was {:?} before the call and reads {:?} after it", t, got.unwrap_or_default());
+                    break;
+                }
+                pos += n;
+            }
+            ctx.spec_fail(format!(
+                "{call}: passing a value to the host changed the caller's copy: {which}; host saw [{seen_args}]; program: {}",
+                c.program.replace('\n', " ; ")
+            ));
+        }
+        ctx.count("re-read-after-call:values-compared");
         ctx.count(&format!("arity:{}", sig.params.len()));
         ctx.count("outcome:done");
         if sig.params.iter().any(|t| *t == Ty::Unit) {
